@@ -49,3 +49,30 @@ func refSameRunes(s, t string) bool {
 	}
 	return true
 }
+
+// refOptionSyntax: the documented rule - a token is an option iff it is `-c...`
+// with c != '-', or `--c...` with c != '-'.
+func refOptionSyntax(t string) bool {
+	if len(t) >= 2 && t[0] == '-' && t[1] != '-' {
+		return true
+	}
+	if len(t) >= 3 && t[0] == '-' && t[1] == '-' && t[2] != '-' {
+		return true
+	}
+	return false
+}
+
+// refNegNumber: narrow reading of "negative number": '-' followed by a digit.
+func refNegNumber(t string) bool {
+	return len(t) >= 2 && t[0] == '-' && t[1] >= '0' && t[1] <= '9'
+}
+
+// refMapKey: the key denoted by a key:value argument (text before the first ':').
+func refMapKey(s string) string {
+	for i := 0; i < len(s); i++ {
+		if s[i] == ':' {
+			return s[:i]
+		}
+	}
+	return s
+}
